@@ -130,9 +130,12 @@ def inline_helpers(crate):
     parse_parts = _parts_of_parse(crate)
     for b in crate.facts["bodies"]:
         d = b["def"]
-        if b["kind"] not in ("Fn", "AssocFn") or "::{" in d or b.get("trait") or b.get("trait_default"):
+        if b["kind"] not in ("Fn", "AssocFn") or "::{" in d or b.get("trait_default"):
             continue
-        if not d.startswith(crate.name + "::") and not d.startswith("<" + crate.name + "::"):
+        private_trait_impl = bool(b.get("trait")) and b["trait"].startswith(crate.name + "::") and "Public" not in (b.get("vis") or "Public")
+        if b.get("trait") and not private_trait_impl:
+            continue
+        if not private_trait_impl and not d.startswith(crate.name + "::") and not d.startswith("<" + crate.name + "::"):
             continue
         if "Public" in (b.get("vis") or "Public"):
             continue
